@@ -18,10 +18,10 @@ s1=$(suite)
 if [ -n "$s1" ]; then echo "$s1" | grep -E "^(--- FAIL|FAIL|panic)" | head -5 >>$log; s1=$(suite); fi
 if [ -z "$s1" ]; then res "SUITE-WITH-PATCH: pass"; else res "SUITE-WITH-PATCH: FAIL $(echo "$s1" | grep -E '^--- FAIL' | head -3 | tr '\n' ' ')"; fi
 cp $demo $wt/$dest
-d1=$(go test -vet=off -count=1 -timeout 5m -run "$runre" $pkg 2>&1 | tail -3 | tr '\n' ' ')
+d1=$(go test ${DEMO_FLAGS:-} -vet=off -count=1 -timeout 5m -run "$runre" $pkg 2>&1 | tail -3 | tr '\n' ' ')
 case "$d1" in *FAIL*) res "DEMO-WITH-PATCH: fails (expected)";; *) res "DEMO-WITH-PATCH: PASSES (unexpected) $d1";; esac
 git apply -R $patch
-d2=$(go test -vet=off -count=1 -timeout 5m -run "$runre" $pkg 2>&1 | tail -3 | tr '\n' ' ')
+d2=$(go test ${DEMO_FLAGS:-} -vet=off -count=1 -timeout 5m -run "$runre" $pkg 2>&1 | tail -3 | tr '\n' ' ')
 case "$d2" in *FAIL*) res "DEMO-WITHOUT-PATCH: FAILS (unexpected) $d2";; *ok*) res "DEMO-WITHOUT-PATCH: passes (expected)";; *) res "DEMO-WITHOUT-PATCH: ? $d2";; esac
 cd /; git -C /repo worktree remove --force $wt
 mkdir -p $out; cp $patch $out/patch.diff; cp $demo $out/$(basename $dest)
